@@ -152,6 +152,38 @@ fn check_history(
             want.sort();
             let mut got: Vec<(String, u64)> = l.iter().map(|m| (m.addr.clone(), m.weight)).collect();
             got.sort();
+            // continuing the listing from any valid address X (member or not): exactly the true members
+            // that sort after X, in one default page and paged one by one, and their weights add up
+            for n in names.iter() {
+                let x = a(n);
+                let mut after: Vec<(String, u64)> = want.iter().filter(|m| m.0 > x).cloned().collect();
+                after.sort();
+                let wsum: u128 = after.iter().map(|m| m.1 as u128).sum();
+                let page: Result<cw4::MemberListResponse, String> =
+                    w.query(contract, &cw4::Cw4QueryMsg::ListMembers { start_after: Some(x.clone()), limit: None });
+                let paged = list_members_from(w, contract, Some(x.clone()), 1);
+                for (how, got) in [("one page", page.map(|p| p.members)), ("paged by 1", paged)] {
+                    let shown = |l: &[(String, u64)]| l.iter().map(|m| (name_of(names, &m.0), m.1)).collect::<Vec<_>>();
+                    match got {
+                        Err(e) => out.push(Violation::new("C09.list_members_fails", e)),
+                        Ok(l) => {
+                            let mut g: Vec<(String, u64)> = l.iter().map(|m| (m.addr.clone(), m.weight)).collect();
+                            g.sort();
+                            let gsum: u128 = g.iter().map(|m| m.1 as u128).sum();
+                            if g != after || gsum != wsum {
+                                out.push(Violation::new(
+                                    "C09.listing_from_cursor_is_the_members_after_it",
+                                    format!(
+                                        "in block {now}: ListMembers{{start_after:{n}}} ({how}) = {:?}, the true members after {n} are {:?}",
+                                        shown(&g),
+                                        shown(&after)
+                                    ),
+                                ));
+                            }
+                        }
+                    }
+                }
+            }
             if want != got {
                 out.push(Violation::new(
                     "C09.listed_members_are_the_true_members",
